@@ -206,6 +206,7 @@ func run(p Plan, rep *kit.Report) (err error) {
 	}
 	yes := true
 	sent := make([]int, len(p.Writers)) // frames whose Write returned, per writer
+	started := make([]atomic.Int64, len(p.Writers)) // frames whose Write call has begun, per writer
 	for wi, wp := range p.Writers {
 		mode := cesium.WriterModePersistStream
 		if wp.StreamOnly {
@@ -236,6 +237,7 @@ func run(p Plan, rep *kit.Report) (err error) {
 					stamps[i] = telem.TimeStamp(base(wp.Key) + seq)
 					seq++
 				}
+				started[wi].Store(int64(f + 1))
 				auth, e := w.Write(telem.UnaryFrame(wp.Key, telem.NewSeriesV(stamps...)))
 				if e != nil || !auth {
 					fail(kit.Fail("writer-error", "writer %d frame %d: authorized=%v err=%v", wi, f, auth, e))
@@ -275,6 +277,9 @@ func run(p Plan, rep *kit.Report) (err error) {
 	// ---- mid-run streamer actions, keyed on writer 0's progress
 	var awg sync.WaitGroup
 	resubAt := make([]int64, len(ss)) // number of frames the streamer had received when the re-subscribe was handed over
+	// resubSnap[si][wi]: number of writer wi's frames whose Write had begun when streamer si's
+	// re-subscribe was handed over. Frames with a larger index are filtered with the new key set.
+	resubSnap := make([][]int64, len(ss))
 	for si, st := range ss {
 		if st.plan.ResubAfter == 0 && st.plan.EarlyAfter == 0 {
 			continue
@@ -292,6 +297,11 @@ func run(p Plan, rep *kit.Report) (err error) {
 			if st.plan.ResubAfter > 0 {
 				st.in.Inlet() <- cesium.StreamerRequest{Channels: st.plan.NewKeys}
 				resubAt[si] = st.got.count.Load()
+				snap := make([]int64, len(p.Writers))
+				for wi := range p.Writers {
+					snap[wi] = started[wi].Load()
+				}
+				resubSnap[si] = snap
 				rep.Class("resubscribe-mid-run")
 			} else {
 				st.stopped.Store(true)
@@ -333,6 +343,53 @@ func run(p Plan, rep *kit.Report) (err error) {
 			rep.Class("completeness-checked")
 		}
 	}
+	// ---- completeness after a re-subscribe: an always-ready streamer must receive every frame
+	// on a key of its new set whose Write began after the request was handed over (the loop
+	// assigns the new set before it takes the next frame), and every frame on a key that is in
+	// both sets. Per-writer order is preserved, so waiting for the last such frame suffices.
+	type span struct {
+		key      uint32
+		from, to int64 // sample sequence numbers [from, to)
+	}
+	resubWant := make([][]span, len(ss))
+	for si, st := range ss {
+		if st.plan.ResubAfter == 0 || st.plan.Stall || p.Production20ms || resubSnap[si] == nil {
+			continue
+		}
+		for wi, wp := range p.Writers {
+			if !contains(st.plan.NewKeys, wp.Key) {
+				continue
+			}
+			from := resubSnap[si][wi]
+			if contains(st.plan.Keys, wp.Key) {
+				from = 0
+			}
+			if int64(sent[wi]) > from {
+				resubWant[si] = append(resubWant[si], span{wp.Key, from * int64(wp.PerFrame), int64(sent[wi]) * int64(wp.PerFrame)})
+			}
+		}
+		hasSeq := func(key uint32, seq int64) bool {
+			st.got.mu.Lock()
+			defer st.got.mu.Unlock()
+			for i := len(st.got.frames) - 1; i >= 0; i-- {
+				for k, sr := range st.got.frames[i].Entries() {
+					if k != key || len(sr.Data) < 8 {
+						continue
+					}
+					if v := int64(binary.LittleEndian.Uint64(sr.Data[len(sr.Data)-8:])) - base(k); v >= seq && v < contenderOffset {
+						return true
+					}
+				}
+			}
+			return false
+		}
+		deadline := time.Now().Add(30 * time.Second)
+		for _, sp := range resubWant[si] {
+			for !hasSeq(sp.key, sp.to-1) && time.Now().Before(deadline) {
+				time.Sleep(time.Millisecond)
+			}
+		}
+	}
 	// ---- disconnect everything, close the DB
 	for _, st := range ss {
 		if !st.stopped.Load() {
@@ -362,6 +419,7 @@ func run(p Plan, rep *kit.Report) (err error) {
 			allowed[k] = true
 		}
 		last := map[uint32]int64{}
+		seen := map[uint32]map[int64]bool{}
 		for fi, fr := range st.got.frames {
 			for k, s := range fr.Entries() {
 				if !allowed[k] {
@@ -385,8 +443,21 @@ func run(p Plan, rep *kit.Report) (err error) {
 						return kit.Fail(sig, "streamer %d: channel %d sample seq %d arrived after seq %d", si, k, v, prev)
 					}
 					last[k] = v
+					if seen[k] == nil {
+						seen[k] = map[int64]bool{}
+					}
+					seen[k][v] = true
 				}
 			}
+		}
+		for _, sp := range resubWant[si] {
+			for q := sp.from; q < sp.to; q++ {
+				if !seen[sp.key][q] {
+					return kit.Fail("missing-frames-after-resubscribe", "streamer %d (always ready, re-subscribed %v -> %v) never received sample seq %d of channel %d; every frame of that channel with seq in [%d,%d) was written after the re-subscribe was handed over (or the channel is in both key sets)", si, st.plan.Keys, st.plan.NewKeys, q, sp.key, sp.from, sp.to)
+				}
+			}
+			rep.Class("resubscribe-completeness-checked")
+			rep.Add("resubscribe_samples_required", sp.to-sp.from)
 		}
 	}
 	if len(p.Writers) >= 2 && (rep.Has("resubscribe-mid-run") || rep.Has("disconnect-mid-run")) {
